@@ -691,6 +691,9 @@ async def read_share_chunk(
     insofar as it doesn't always require a range.  In practice a range is
     always provided by the current callers.
     """
+    if length == 0:
+        # A zero-length range cannot be expressed in a Range header.
+        return b""
     url = client.relative_url(
         "/storage/v1/{}/{}/{}".format(
             share_type, _encode_si(storage_index), share_number
